@@ -6,7 +6,7 @@ import subprocess
 import time
 from concurrent.futures import ThreadPoolExecutor
 
-TINY = 4
+TINY = 7
 
 
 def setup(ck):
